@@ -121,9 +121,17 @@ class ConfigTargetVisibility(object):
             is_constant = False
         else:
             # Promptless or target-gated: constant iff everything determining its value is target-constant.
-            is_constant = self._expr_is_target_constant(item.rev_dep) and all(
-                self._expr_is_target_constant(cond) and self._expr_is_target_constant(value)
-                for value, cond in item.defaults
+            # (imply, set and set default reach the value as well: their sources and conditions count)
+            is_constant = (
+                self._expr_is_target_constant(item.rev_dep)
+                and self._expr_is_target_constant(item.weak_rev_dep)
+                and all(
+                    self._expr_is_target_constant(cond) for _value, cond, _src in item.rev_values + item.weak_rev_values
+                )
+                and all(
+                    self._expr_is_target_constant(cond) and self._expr_is_target_constant(value)
+                    for value, cond in item.defaults
+                )
             )
 
         self._constants_cache[item.name] = is_constant
